@@ -30,7 +30,10 @@ ASSUMPTIONS = [
     "ids are strings of BMP code points; Python str comparison = lexicographic on code points",
     "theorems are over a linearly ordered field; the Float instance is tied by bit-exact differential execution "
     "(+ - * / abs pow probed bit-identical to CPython) and the monitors are evaluated at Float on the implementation's states",
-    "merge_candidates / split_candidates (component search) are not modelled: apply_merge / apply_split take the cluster as input",
+    "merge_candidates / split_candidates (component search) are not modelled: the REAL functions are called on the store inside the "
+    "histories (ops mc/sc/mca/sca/mcp) and their results are handed to the model as oracles; they are monitored for purity (store deep-equal "
+    "before/after, every weight bit and attr) and for their spec-level output contract (sorted sets of existing endpoint ids, consistent "
+    "size/signature, documented order, deterministic)",
 ]
 CLAIM = {
     "text": ("Lean theorems, generic in a linearly ordered field and unbounded in the history, about the executable model of gel.py: "
@@ -63,7 +66,9 @@ CLAIM = {
              "(monitor settings_current_values); while a history runs NOTHING but its one long-lived ctx (plain dict ctx, .cfg holder or "
              ".config holder, per case) is handed to gel.py - the fresh-settings differential and a replay of the whole history on a long-lived "
              "ctx of another shape (monitor ctx_shape_invariant) run afterwards - so a resolved-settings memo of any shape (single slot, keyed "
-             "by identity) stays warm exactly as on a live context. (b) component gel_turn drives the REAL Orchestrator.run_turn (harness/lib/turnrig.py) "
+             "by identity) stays warm exactly as on a live context. Round 5: the real merge_candidates/split_candidates run inside the histories (candidate -> apply -> tick -> candidate, promotions "
+             "with negative attach weight, stores seeded as a loaded snapshot would install them with mixed-sign weights, asymmetric clamps); "
+             "monitors candidates_pure / candidates_contract. (b) component gel_turn drives the REAL Orchestrator.run_turn (harness/lib/turnrig.py) "
              "with graph.enabled on worlds with 4-7 episodes / scripted T2 hits, observe_top_k below the number of hits and t2.ranking "
              "weights that list hits away from score order; after every turn state.graph must equal the model's observe on ALL hits T2 "
              "returned (with their scores) followed by tick(1), and the Lean monitor obsTopB (theorem C18_observe_topk_by_score) is "
@@ -341,15 +346,91 @@ def perm_of(items: list, salt: int) -> list:
     return rot[::-1] if salt % 2 else rot
 
 
+def seed_edges(spec: list) -> List[dict]:
+    """canonical edge rows (snapshot form) of a `seed` op: [a, b, 'f:w', concept, coact, lst]."""
+    rows = []
+    for a, b, w, concept, coact, lst in spec:
+        src, dst = (a, b) if a <= b else (b, a)
+        rows.append({"k": src + ARROW + dst, "src": src, "dst": dst, "w": F(_num(w)), "concept": bool(concept),
+                     "coact": coact, "lst": lst})
+    return rows
+
+
+def install_seed(state: Any, spec: list) -> None:
+    edges: Dict[str, Any] = {}
+    for e in seed_edges(spec):
+        attrs: Dict[str, Any] = {}
+        if e["coact"] is not None:
+            attrs["coact"] = e["coact"]
+        if e["lst"] != "absent":
+            attrs["last_seen_turn"] = e["lst"]
+        edges[e["k"]] = {"id": e["k"], "src": e["src"], "dst": e["dst"], "weight": e["w"],
+                         "rel": "concept" if e["concept"] else "coact", "updated_at": None, "attrs": attrs}
+    store = {"nodes": {}, "edges": edges,
+             "meta": {"schema": "v1", "merges": [], "splits": [], "promotions": [], "concept_nodes_count": 0}}
+    if isinstance(state, dict):
+        state["graph"] = store
+    else:
+        state.graph = store
+
+
+def merge_contract(cands: Any, again: Any, store_snap: Any) -> Optional[str]:
+    """spec-level output contract of merge_candidates: deterministic; clusters are sorted lists of distinct existing
+    endpoint ids with consistent size/signature; ordered by (-avg_w, -size, nodes)."""
+    if repr(cands) != repr(again):
+        return "two consecutive calls returned different candidates"
+    ends = set()
+    for e in (store_snap or {"edges": []})["edges"]:
+        ends.add(e["src"]); ends.add(e["dst"])
+    keys = []
+    for c in cands:
+        n = c.get("nodes")
+        if not isinstance(n, list) or n != sorted(set(n)) or not set(n) <= ends:
+            return f"cluster nodes {n!r} are not a sorted set of existing endpoint ids"
+        if c.get("size") != len(n) or c.get("signature") != "|".join(n) or not (c.get("avg_w", 0.0) >= 0.0):
+            return f"inconsistent candidate {c!r}"
+        keys.append((-float(c["avg_w"]), -int(c["size"]), tuple(n)))
+    if keys != sorted(keys):
+        return "candidates not in (-avg_w, -size, nodes) order"
+    return None
+
+
+def split_contract(cands: Any, again: Any, store_snap: Any) -> Optional[str]:
+    if repr(cands) != repr(again):
+        return "two consecutive calls returned different candidates"
+    ends = set()
+    for e in (store_snap or {"edges": []})["edges"]:
+        ends.add(e["src"]); ends.add(e["dst"])
+    keys = []
+    for c in cands:
+        o = c.get("original")
+        if not isinstance(o, list) or o != sorted(set(o)) or not set(o) <= ends:
+            return f"original {o!r} is not a sorted set of existing endpoint ids"
+        flat = [x for p_ in c.get("parts", []) for x in p_]
+        if len(flat) != len(set(flat)) or not set(flat) <= set(o) or len(c.get("parts", [])) < 2:
+            return f"parts {c.get('parts')!r} are not >= 2 disjoint subsets of the original"
+        if not (0 <= c.get("removed_edges", -1) <= c.get("orig_edges", -1)):
+            return f"edge counts inconsistent in {c!r}"
+        keys.append((-int(c["removed_edges"]), tuple(o)))
+    if keys != sorted(keys):
+        return "candidates not in (-removed_edges, original) order"
+    return None
+
+
+CAND_OPS = ("mc", "sc", "mca", "sca", "mcp")
+
+
 class GelComp(Component):
     name = "gel"
+    #: oracle results (candidate lists actually returned by the real code) per case, handed to the model by `request`
+    _oracle: Dict[str, Dict[int, Any]] = {}
     budget = {"quick": 900, "thorough": 40000, "search": 6000}
 
     # ---- generator --------------------------------------------------------------------------
     def gen_cfg(self, rng: random.Random, stream: str) -> dict:
         alpha = rng.choice([0.02, 0.3, 0.5, 1.0, 2.5, 1e-9, 0.25, round(rng.random(), 3) + 0.001])
         clamps = rng.choice([(-1.0, 1.0), (-1.0, 1.0), (-0.9, 0.9), (-0.1, 0.1), (0.0, 1.0), (-1.0, 0.0), (0.0, 0.05),
-                             (-0.5, 0.25), (-2.0, 3.0), (-0.3, 0.3), (0.0, 0.3)])
+                             (-0.5, 0.25), (-2.0, 3.0), (-0.3, 0.3), (0.0, 0.3), (-1.0, 0.3), (-1.0, 0.3), (-0.2, 1.0)])
         hl: Any = rng.choice([1, 1, 2, 3, 10, 200])
         thr = rng.choice([0.0, 0.2, 0.2, 0.5, 1.0, round(rng.random(), 2)])
         topk = rng.choice([1, 2, 3, 3, 4, 5, 64])
@@ -417,6 +498,10 @@ class GelComp(Component):
             "promotion": {"enabled": True, "label_mode": rng.choice(["lexmin", "concat_k"]),
                           "topk_label_ids": rng.choice([1, 2, 3]), "attach_weight": _fv(attach)},
         }
+        # merge / split pass settings (read by the REAL merge_candidates / split_candidates, which are oracles here)
+        mavg = rng.choice([0.05, 0.1, 0.2, 0.2])
+        cfgc["merge"] = {"enabled": True, "min_size": rng.choice([2, 2, 3]), "min_avg_w": _fv(mavg), "max_diameter": rng.choice([1, 2, 3])}
+        cfgc["split"] = {"enabled": True, "weak_edge_thresh": _fv(rng.choice([0.0, 0.05, mavg])), "min_component_size": 2}
         # exercise the defaults by dropping keys now and then
         if rng.random() < 0.12:
             for path in rng.sample([("coactivation_threshold",), ("observe_top_k",), ("pair_cap_per_obs",), ("update", "mode"),
@@ -469,8 +554,31 @@ class GelComp(Component):
         thr = F(_num(cfgc.get("coactivation_threshold", _fv(0.2))))
         hl = cfgc.get("decay", {}).get("half_life_turns", 200)
         ops: List[list] = []
+        cl_lo = F(_num(cfgc.get("update", {}).get("clamp_min", _fv(-1.0))))
+        cl_hi = F(_num(cfgc.get("update", {}).get("clamp_max", _fv(1.0))))
+        if stream in ("valid", "extreme") and cl_lo <= cl_hi and rng.random() < 0.18:
+            # a store as a loaded snapshot would install it: mixed-sign weights inside the clamp, coact and concept records
+            seed, seen = [], set()
+            for _ in range(rng.choice([1, 2, 3, 5])):
+                a, b = rng.choice(ids), rng.choice(ids)
+                if (min(a, b), max(a, b)) in seen:
+                    continue
+                seen.add((min(a, b), max(a, b)))
+                w = rng.choice([cl_lo, cl_hi, cl_lo * 0.5, cl_hi * 0.5, -0.25, 0.25, -0.04, 0.0, -0.0])
+                w = min(max(w, cl_lo), cl_hi)
+                concept = rng.random() < 0.3
+                seed.append([a, b, _fv(w), concept, None if concept else rng.choice([1, 2, 7]),
+                             "absent" if concept else rng.choice([None, 0, 3])])
+            ops.append(["seed", seed])
         if rng.random() < 0.08:
             ops.append(["gate", False])
+        if stream == "valid" and rng.random() < 0.15:
+            # the maintenance cycle of consecutive turns: observe.. -> merge pass (+promotion) -> tick -> next merge / split pass
+            its = [[i_, R(s_)] for i_, s_ in zip(rng.sample(ids, min(len(ids), 3)), (0.9, 0.8, 0.7))]
+            for k_ in range(rng.choice([2, 4])):
+                ops.append(["obs", its, k_, "tuple"])
+            ops += [rng.choice([["mcp"], ["mcp"], ["promote", [{"nodes": [i_ for i_, _ in its]}]]]), ["tick", 1, 5],
+                    rng.choice([["mc"], ["mca", 4]]), rng.choice([["sc"], ["sca", 4]]), ["tick", 1, 6], ["mc"], ["sc"]]
         nops = rng.choice([2, 4, 6, 12, 25, 40])
         turn = rng.choice([None, 0, 1, 7])
         # settings-HISTORY cases: the one settings object is edited in place between calls
@@ -483,16 +591,16 @@ class GelComp(Component):
             t = turn if (turn is None or rng.random() < 0.8) else None
             if turn is not None:
                 turn += rng.choice([0, 1, 1])
-            if x < 0.42:
+            if x < 0.36:
                 its, style = self.gen_items(rng, ids, thr)
                 ops.append(["obs", its, t, style])
-            elif x < 0.70:
+            elif x < 0.60:
                 dt = rng.choice([1, 1, 1, 0, 2, 3, -1, 1000, 100000, hl if isinstance(hl, int) else 1,
                                  3 * hl if isinstance(hl, int) else 3])
                 if stream == "extreme":
                     dt = rng.choice([dt, 1, 1022, 1074, 1075, 1100, 10 ** 7, 2 ** 31])
                 ops.append(["tick", dt, t])
-            elif x < 0.76:
+            elif x < 0.64:
                 nodes = rng.sample(ids, min(len(ids), rng.choice([0, 2, 3])))
                 cl: Dict[str, Any] = {"nodes": sorted(nodes), "size": len(nodes), "avg_w": _fv(round(rng.random(), 3)),
                                       "diameter": rng.choice([1, 2]), "signature": "|".join(sorted(nodes))}
@@ -500,7 +608,7 @@ class GelComp(Component):
                     for k in rng.sample(["size", "avg_w", "diameter", "signature"], 2):
                         cl.pop(k)
                 ops.append(["merge", cl])
-            elif x < 0.80:
+            elif x < 0.67:
                 nodes = sorted(rng.sample(ids, min(len(ids), rng.choice([2, 3, 4]))))
                 h = len(nodes) // 2
                 sp: Dict[str, Any] = {"original": nodes, "parts": [nodes[:h], nodes[h:]], "removed_edges": rng.choice([0, 1, 2]),
@@ -508,19 +616,29 @@ class GelComp(Component):
                 if rng.random() < 0.3:
                     sp.pop(rng.choice(["removed_edges", "orig_edges", "signature"]))
                 ops.append(["split", sp])
-            elif x < 0.88:
+            elif x < 0.74:
                 cls = [{"nodes": [rng.choice(ids) for _ in range(rng.choice([0, 1, 2, 3, 3]))]} for _ in range(rng.choice([0, 1, 2, 3]))]
                 ops.append(["promote", cls])
-            elif x < 0.91:
+            elif x < 0.76:
                 cls = [{"nodes": [rng.choice(ids) for _ in range(rng.choice([0, 1, 2, 4]))]} for _ in range(rng.choice([1, 2, 3]))]
                 ops.append(["pc", cls])
-            elif x < 0.96:
+            elif x < 0.81:
                 p: Dict[str, Any] = {"concept_id": rng.choice(["c::" + rng.choice(ids), rng.choice(ids), "c::a"]),
                                      "label": rng.choice(ids), "members": [rng.choice(ids) for _ in range(rng.choice([0, 1, 2, 3]))],
                                      "attach_weight": _fv(rng.choice([0.5, -0.5, 0.05, 1.0, -1.0, 0.0, 2.0]))}
                 if rng.random() < 0.3:
                     p.pop(rng.choice(["label", "attach_weight"]))
                 ops.append(["ap", p])
+            elif x < 0.85:
+                ops.append(["mc"])
+            elif x < 0.88:
+                ops.append(["sc"])
+            elif x < 0.91:
+                ops.append(["mca", rng.choice([1, 4])])
+            elif x < 0.93:
+                ops.append(["sca", rng.choice([1, 4])])
+            elif x < 0.96:
+                ops.append(["mcp"])
             else:
                 ops.append(["gate", rng.random() < 0.5])
         return {"cfg": cfgc, "ctx_style": rng.choice(["dict", "cfg", "config"]),
@@ -555,6 +673,7 @@ class GelComp(Component):
         ctx = make_ctx(case.get("ctx_style", "dict"), g)
         out: List[dict] = []
         pending: List[tuple] = []
+        oracle: Dict[int, Any] = {}
         for idx, op in enumerate(case["ops"]):
             enabled = bool(g.get("enabled", False))
             pre = snap(state)
@@ -562,7 +681,7 @@ class GelComp(Component):
             tag = op[0]
             # kept for the differential passes below (run AFTER the whole history: nothing but the one long-lived
             # ctx is handed to gel.py while the history runs, so a memo of any shape - single slot, keyed by id - stays warm)
-            if tag not in ("gate", "set"):
+            if tag not in ("gate", "set", "seed"):
                 pending.append((len(out), op, copy.deepcopy(state), copy.deepcopy(g)))
             if tag == "gate":
                 g["enabled"] = bool(op[1])
@@ -570,6 +689,45 @@ class GelComp(Component):
             elif tag == "set":
                 apply_set(g, op[1], op[2])
                 r = None
+            elif tag == "seed":
+                install_seed(state, op[1])
+                r = None
+            elif tag in CAND_OPS:
+                # the REAL candidate pass (an oracle for the model): it must not touch the store
+                fn = gel.split_candidates if tag in ("sc", "sca") else gel.merge_candidates
+                before = snap(state)
+                cands = fn(ctx, state)
+                mid = snap(state)
+                again = fn(ctx, state)
+                rec["pure"] = (before == mid == snap(state)) or (before is None and enabled and mid == snap(state) and
+                                                                 mid == {"nodes": [], "edges": [], "merges": [], "splits": [], "cc": 0, "ec": None})
+                rec["pure_detail"] = None if rec["pure"] else {"before": before, "after": snap(state)}
+                rec["contract"] = (split_contract if tag in ("sc", "sca") else merge_contract)(cands, again, mid)
+                rec["ncand"] = len(cands)
+                r = None
+                if tag == "mca":
+                    app = cands[: int(op[1])]
+                    for c_ in app:
+                        gel.apply_merge(ctx, state, c_)
+                    oracle[idx] = [dict(merge_rec(c_), avg_w=R(merge_rec(c_)["avg_w"])) for c_ in app]
+                elif tag == "sca":
+                    app = cands[: int(op[1])]
+                    for c_ in app:
+                        gel.apply_split(ctx, state, c_)
+                    oracle[idx] = [split_rec(c_) for c_ in app]
+                elif tag == "mcp":
+                    oracle[idx] = [list(c_["nodes"]) for c_ in cands]
+                    ps = gel.promote_clusters(ctx, state, cands)
+                    r = [{"cid": p["concept_id"], "label": p["label"], "members": list(p["members"]), "w": wbits(p["attach_weight"])} for p in ps]
+                    idem = True
+                    for p in ps:
+                        gel.apply_promotion(ctx, state, p)
+                        st2 = copy.deepcopy(state)
+                        gel.apply_promotion(ctx, st2, p)
+                        idem = idem and snap(st2) == snap(state)
+                    rec["idem"] = idem
+                if idx in oracle:
+                    rec["oracle"] = oracle[idx]
             elif tag == "obs":
                 items = self._mk_items(op[1], op[3] if len(op) > 3 else "tuple")
                 # differential: the same observation with the items listed in another order
@@ -641,13 +799,26 @@ class GelComp(Component):
                 elif op[0] == "set":
                     apply_set(g2, op[1], op[2])
                     r2 = None
+                elif op[0] == "seed":
+                    install_seed(state2, op[1])
+                    r2 = None
                 else:
                     r2 = self._plain_call(gel, ctx2, state2, op)
                 rec["shape_same"] = (canon_state(snap(state2)) == canon_state(rec["s"]) and r2 == rec["r"])
             except Exception as e:
                 rec["shape_same"] = False
                 rec["shape_exc"] = type(e).__name__
+        if oracle:
+            GelComp._oracle[json.dumps(case, sort_keys=True)] = oracle
         return {"trace": out, "accepted": accepted, "m": m_repr(m)}
+
+    def _oracle_for(self, case: dict) -> Dict[int, Any]:
+        if not any(op[0] in ("mca", "sca", "mcp") for op in case["ops"]):
+            return {}
+        key = json.dumps(case, sort_keys=True)
+        if key not in GelComp._oracle:
+            self.impl(case)
+        return GelComp._oracle.get(key, {})
 
     def _plain_call(self, gel: Any, ctx: Any, state: Any, op: list) -> Any:
         """One API call, no differentials; returns what the trace records under `r`."""
@@ -667,6 +838,21 @@ class GelComp(Component):
         if tag == "ap":
             gel.apply_promotion(ctx, state, _py(op[1]))
             return None
+        if tag in CAND_OPS:
+            fn = gel.split_candidates if tag in ("sc", "sca") else gel.merge_candidates
+            cands = fn(ctx, state)
+            if tag == "mca":
+                for c_ in cands[: int(op[1])]:
+                    gel.apply_merge(ctx, state, c_)
+            elif tag == "sca":
+                for c_ in cands[: int(op[1])]:
+                    gel.apply_split(ctx, state, c_)
+            elif tag == "mcp":
+                ps = gel.promote_clusters(ctx, state, cands)
+                for p in ps:
+                    gel.apply_promotion(ctx, state, p)
+                return [{"cid": p["concept_id"], "label": p["label"], "members": list(p["members"]), "w": wbits(p["attach_weight"])} for p in ps]
+            return None
         if tag in ("pc", "promote"):
             ps = gel.promote_clusters(ctx, state, copy.deepcopy(op[1]))
             r = [{"cid": p["concept_id"], "label": p["label"], "members": list(p["members"]), "w": wbits(p["attach_weight"])} for p in ps]
@@ -681,9 +867,20 @@ class GelComp(Component):
         _g, _acc, m = resolve(case["cfg"])
         gcur = copy.deepcopy(_g)
         ops = []
-        for op in case["ops"]:
+        orc = self._oracle_for(case)
+        for oi, op in enumerate(case["ops"]):
             tag = op[0]
-            if tag == "gate":
+            if tag == "seed":
+                ops.append(["seed", [dict(e, w=f2b(e["w"])) for e in seed_edges(op[1])]])
+            elif tag in ("mc", "sc"):
+                ops.append(["cand"])
+            elif tag == "mca":
+                ops.append(["merges", [dict(mr_, avg_w=f2b(F(mr_["avg_w"]))) for mr_ in orc.get(oi, [])]])
+            elif tag == "sca":
+                ops.append(["splits", list(orc.get(oi, []))])
+            elif tag == "mcp":
+                ops.append(["candpromote", [list(n_) for n_ in orc.get(oi, [])]])
+            elif tag == "gate":
                 gcur["enabled"] = bool(op[1])
                 ops.append(["gate", bool(op[1])])
             elif tag == "set":
@@ -771,7 +968,7 @@ class GelComp(Component):
                     break
             n_all = n_set
             for i, op in enumerate(ops[:n_set]):
-                if op[0] in ("ap", "promote") and trace[i]["enabled"]:
+                if op[0] in ("ap", "promote", "mcp") and trace[i]["enabled"]:
                     if op[0] == "ap":
                         w = promo_rec(op[1])["w"]
                     else:
@@ -813,6 +1010,13 @@ class GelComp(Component):
         for i, (op, t) in enumerate(zip(case["ops"], impl_out["trace"])):
             tag = op[0]
             pre, post = t["pre"], t["s"]
+            if tag in CAND_OPS:
+                res.append(("candidates_pure", bool(t.get("pure")),
+                            f"op {i} {tag}: the candidate pass changed the store: {t.get('pure_detail')}"))
+                if cfg_class(impl_out["accepted"], m_parse(impl_out["m"])) != "nonfinite_cfg":   # (NaN weights: see the open finding)
+                    res.append(("candidates_contract", t.get("contract") is None, f"op {i} {tag}: {t.get('contract')}"))
+            if tag == "seed":
+                continue
             if not t["enabled"] and tag not in ("gate", "set"):
                 ok = pre == post and t["r"] in (None, [], {"k_in": 0, "k_used": 0, "pairs_updated": 0}, {"decayed": 0, "dropped": 0}) \
                     and t.get("ret") in (None, [0, wbits(0.0), 0], [0, 0], ["", 0])
@@ -839,9 +1043,23 @@ class GelComp(Component):
                 ok = (post is not None and post["nodes"] == p0["nodes"] and post["edges"] == p0["edges"] and post[other] == p0[other]
                       and post["cc"] == p0["cc"] and post["ec"] == p0["ec"] and post[key] == p0[key] + [exp])
                 res.append(("maintenance_only_meta", ok, f"op {i} {tag}: store before {p0} after {post}"))
+            elif tag in ("mc", "sc"):
+                p0 = pre or {"nodes": [], "edges": [], "merges": [], "splits": [], "cc": 0, "ec": None}
+                res.append(("maintenance_only_meta", post == p0, f"op {i} {tag}: store before {p0} after {post}"))
+            elif tag in ("mca", "sca"):
+                p0 = pre or {"nodes": [], "edges": [], "merges": [], "splits": [], "cc": 0, "ec": None}
+                key = "merges" if tag == "mca" else "splits"
+                other = "splits" if tag == "mca" else "merges"
+                exps = [dict(x) for x in (t.get("oracle") or [])]
+                if tag == "mca":
+                    for x in exps:
+                        x["avg_w"] = wbits(F(x["avg_w"]))
+                ok = (post is not None and post["nodes"] == p0["nodes"] and post["edges"] == p0["edges"] and post[other] == p0[other]
+                      and post["cc"] == p0["cc"] and post["ec"] == p0["ec"] and post[key] == p0[key] + exps)
+                res.append(("maintenance_only_meta", ok, f"op {i} {tag}: store before {p0} after {post}"))
             elif tag == "pc":
                 res.append(("maintenance_only_meta", pre == post, f"op {i} promote_clusters changed the store"))
-            elif tag in ("ap", "promote"):
+            elif tag in ("ap", "promote", "mcp"):
                 p0 = pre or {"nodes": [], "edges": [], "merges": [], "splits": [], "cc": 0, "ec": None}
                 if tag == "ap":
                     promos = [promo_rec(op[1])]
@@ -863,8 +1081,8 @@ class GelComp(Component):
                 ok_edges = post is not None and all((e["k"] in own) or pe.get(e["k"]) == e for e in post["edges"]) \
                     and all(k in {e["k"] for e in post["edges"]} for k in pe) \
                     and all(e["concept"] for e in post["edges"] if e["k"] in own)
-                if not promos:      # nothing to apply: the store must be exactly as before
-                    res.append(("promotion_only_concept", pre == post, f"op {i} {tag} with no promotion changed the store"))
+                if not promos:      # nothing to apply: the store must be exactly as before (a candidate pass may create the empty store)
+                    res.append(("promotion_only_concept", (p0 if tag == "mcp" else pre) == post, f"op {i} {tag} with no promotion changed the store"))
                     continue
                 ok_meta = post is not None and post["merges"] == p0["merges"] and post["splits"] == p0["splits"] \
                     and post["cc"] == p0["cc"] + len(new_nodes) - len(p0["nodes"]) and (post["ec"] == len(post["edges"]))
@@ -885,6 +1103,12 @@ class GelComp(Component):
             tag = op[0]
             if "m" in tr:
                 m = m_parse(tr["m"])
+            if tag == "seed":
+                t.add("seeded_store")
+            if tag == "mcp" and tr.get("ncand"):
+                t.add("maint:merge_candidates_nonempty")
+                if any(e["w"] != "nan" and b2f(e["w"]) < 0 for e in (tr["pre"] or {"edges": []})["edges"]):
+                    t.add("maint:negative_weight_at_candidate_pass")
             if tag == "set":
                 t.add("cfg_history:set_in_place")
             if tag == "gate":
@@ -934,7 +1158,12 @@ class GelComp(Component):
                     t.add("tick:negative_w")
             elif tag in ("merge", "split"):
                 t.add(tag)
-            elif tag in ("ap", "promote"):
+            elif tag in CAND_OPS and tag != "mcp":
+                if tr.get("ncand"):
+                    t.add("maint:" + ("split" if tag in ("sc", "sca") else "merge") + "_candidates_nonempty")
+                if any(e["w"] != "nan" and b2f(e["w"]) < 0 for e in pre_e.values()):
+                    t.add("maint:negative_weight_at_candidate_pass")
+            elif tag in ("ap", "promote", "mcp"):
                 if len((tr["s"] or {"nodes": []})["nodes"]) > len((tr["pre"] or {"nodes": []})["nodes"]):
                     t.add("promote:new_node")
                 if any(k in pre_e and pre_e[k] != e for k, e in post_e.items()):
@@ -1196,7 +1425,114 @@ class GelTurnComp(Component):
                 yield dict(case, turns=ts[:i] + ts[i + 1:])
 
 
-COMPONENTS = [GelComp(), GelTurnComp()]
+# --------------------------------------------------------------------------------------------
+# snapshot path: graph state that enters through load_latest_snapshot / leaves through write_snapshot
+# --------------------------------------------------------------------------------------------
+
+def _pair_canon_problems(edges: Any) -> List[str]:
+    """one record per unordered pair, filed under min(src,dst) + '→' + max(src,dst)."""
+    out: List[str] = []
+    seen: Dict[Any, list] = {}
+    if not isinstance(edges, dict):
+        return [f"edges is {type(edges).__name__}, not a dict"]
+    for k, rec in edges.items():
+        a, b = sorted((str(rec.get("src")), str(rec.get("dst"))))
+        if k != a + ARROW + b:
+            out.append(f"non-canonical key {k!r} for pair ({a},{b})")
+        seen.setdefault((a, b), []).append(k)
+    for pair, ks in seen.items():
+        if len(ks) > 1:
+            out.append(f"pair {pair} has {len(ks)} edges {ks}")
+    return out
+
+
+class GelSnapshotComp(Component):
+    """Legacy / hand-written snapshots list GEL edges with arbitrary endpoint order (list or dict form): after
+    load_latest_snapshot, after observe+tick on the loaded store and in the snapshot written back there must be exactly one
+    edge per unordered pair under its canonical key.  No model: monitors on the real code only."""
+    name = "gel_snapshot"
+    budget = {"quick": 60, "thorough": 1500, "search": 300}
+    deciding = False
+    scratch: Any = None
+
+    def gen(self, rng: random.Random, i: int) -> dict:
+        ids = rng.sample(["m1", "m2", "a", "b", "ab", "é", "n10", "n2"], rng.choice([2, 3, 4]))
+        pairs, seen = [], set()
+        for _ in range(rng.choice([1, 2, 3])):
+            a, b = rng.sample(ids, 2)
+            if frozenset((a, b)) in seen:
+                continue
+            seen.add(frozenset((a, b)))
+            pairs.append([a, b, R(rng.choice([0.4, -0.3, 0.05, 1.0, 0.0])), rng.choice(["coact", "coact", "concept"])])
+        form = rng.choice(["list", "dict_runtime_key", "dict_legacy_key", "dict_reversed_key"])
+        obs = [[x, R(s_)] for x, s_ in zip(rng.sample(ids, min(len(ids), rng.choice([2, 3]))), (0.9, 0.8, 0.7))]
+        return {"pairs": pairs, "form": form, "obs": obs}
+
+    def impl(self, case: dict) -> Any:
+        import shutil
+        import tempfile
+        from types import SimpleNamespace
+        from clematis.engine import gel
+        from clematis.engine.snapshot import load_latest_snapshot, write_snapshot
+        d = tempfile.mkdtemp(prefix="gelsnap_", dir=str(self.scratch) if self.scratch else None)
+        try:
+            recs = [{"src": a, "dst": b, "rel": rel, "weight": F(w)} for a, b, w, rel in case["pairs"]]
+            form = case["form"]
+            if form == "list":
+                payload: Any = recs
+            elif form == "dict_runtime_key":
+                payload = {min(r["src"], r["dst"]) + ARROW + max(r["src"], r["dst"]): r for r in recs}
+            elif form == "dict_legacy_key":
+                payload = {f"{r['src']}__{r['dst']}__{r['rel']}": r for r in recs}
+            else:
+                payload = {r["src"] + ARROW + r["dst"]: r for r in recs}
+            cfg = {"t4": {"snapshot_dir": d, "snapshot_every_n_turns": 1},
+                   "graph": {"enabled": True, "coactivation_threshold": 0.2,
+                             "update": {"mode": "additive", "alpha": 0.1, "clamp_min": -1.0, "clamp_max": 1.0},
+                             "decay": {"half_life_turns": 10, "floor": 0.0}}}
+            ctx = SimpleNamespace(cfg=cfg, config=cfg, agent_id="legacy", turn_id=1)
+            with open(f"{d}/state_legacy.json", "w", encoding="utf-8") as f:
+                json.dump({"version_etag": "7", "graph_schema_version": "v1",
+                           "gel": {"nodes": {}, "edges": payload, "meta": {}}}, f)
+            state = SimpleNamespace()
+            load_latest_snapshot(ctx, state)
+            g = getattr(state, "graph", None) or {}
+            loaded = copy.deepcopy(g.get("edges"))
+            gel.observe_retrieval(ctx, state, [(x, F(s_)) for x, s_ in case["obs"]], turn=2)
+            gel.tick(ctx, state, decay_dt=1, turn=2)
+            after = copy.deepcopy(state.graph.get("edges"))
+            pth = write_snapshot(ctx, state, version_etag="8")
+            with open(pth, encoding="utf-8") as f:
+                written = json.load(f).get("gel", {}).get("edges")
+            view = lambda es: sorted([k, str(r.get("src")), str(r.get("dst")), wbits(r.get("weight"))] for k, r in es.items()) if isinstance(es, dict) else repr(es)[:100]  # noqa: E731
+            return {"n_in": len(recs), "loaded": view(loaded), "after": view(after), "written": view(written),
+                    "p_loaded": _pair_canon_problems(loaded), "p_after": _pair_canon_problems(after),
+                    "p_written": _pair_canon_problems(written),
+                    "n_loaded": len(loaded) if isinstance(loaded, dict) else -1}
+        finally:
+            shutil.rmtree(d, ignore_errors=True)
+
+    def request(self, case: dict) -> dict:
+        return {"c": "const", "v": True}
+
+    def compare(self, case, impl_out, model_out):
+        return None
+
+    def monitors(self, case, impl_out):
+        return [("snapshot_load_keeps_pairs", impl_out["n_loaded"] == impl_out["n_in"],
+                 f"{impl_out['n_in']} edge records in the snapshot, {impl_out['n_loaded']} after load: {impl_out['loaded']}"),
+                ("snapshot_keys_canonical", not impl_out["p_loaded"], f"after load_latest_snapshot: {impl_out['p_loaded']}"),
+                ("snapshot_keys_canonical", not impl_out["p_after"], f"after observe+tick on the loaded store: {impl_out['p_after']}; edges {impl_out['after']}"),
+                ("snapshot_keys_canonical", not impl_out["p_written"], f"in the snapshot written back: {impl_out['p_written']}")]
+
+    def tags(self, case, impl_out):
+        t = {"form:" + case["form"]}
+        if any(a > b for a, b, _w, _r in case["pairs"]):
+            t.add("reversed_endpoints")
+        return sorted(t)
+
+
+COMPONENTS = [GelComp(), GelTurnComp(), GelSnapshotComp()]
 
 
 def _still_fails(comp: Any, case: dict, monitor: str) -> bool:
@@ -1239,6 +1575,7 @@ def run(ctx: Ctx) -> None:
             comp.scratch = ctx.scratch
         if hasattr(comp, "_memo"):
             comp._memo.clear()
+        GelComp._oracle.clear()
         run_component(ctx, comp)
         _minimise_failures(ctx, comp)
 
